@@ -40,4 +40,20 @@ MUTANTS = [
     # --- generator totality (C15-R4)
     dict(id='stub-union-loop-reads-has-default', expect='fire', rule='C15-R4', edits=[('stone/backends/python_type_stubs.py',
         "        for field in union.fields:\n", "        for field in union.fields:\n            if field.has_default:\n                continue\n")]),
+    dict(id='benign-correct-cache-typeref', expect='silent', edits=[('stone/backends/python_type_mapping.py',
+        """        class_name = class_name_for_data_type(user_defined_type)
+        if user_defined_type.namespace.name != ns.name:
+            return '{}.{}'.format(
+                fmt_namespace(user_defined_type.namespace.name), class_name)
+        else:
+            return class_name
+""", """        ck = (ns.name, user_defined_type.namespace.name, user_defined_type.name)
+        if ck not in _refs:
+            class_name = class_name_for_data_type(user_defined_type)
+            if user_defined_type.namespace.name != ns.name:
+                class_name = '{}.{}'.format(
+                    fmt_namespace(user_defined_type.namespace.name), class_name)
+            _refs[ck] = class_name
+        return _refs[ck]
+"""), ('stone/backends/python_type_mapping.py', "def map_stone_type_to_python_type(", "_refs = {}\n\n\ndef map_stone_type_to_python_type(")]),
 ]
